@@ -287,3 +287,64 @@ def is_error_ack(ex, p, ackbytes):
     v = ackbytes
     src = v.attrs.get('ack_kind') if isinstance(v, Obj) else None
     return None if src is None else (src == 'error')
+
+
+# ----------------------------------------------------------------------------------------------------------------- Ics20Withdrawal
+def ics20_obligation(pid):
+    def ob(run):
+        ex, W = A.ics20_engine()
+        run.bound(state='arbitrary symbolic chain state', action='arbitrary Ics20Withdrawal, plain and on behalf of a bridge account', ibc='send_packet_check / send_packet_execute are oracles; is_source is an uninterpreted predicate of (port, channel, denom)')
+        run.assume('constructor invariant of CheckedIcs20Withdrawal::new: with a bridge address the withdrawal address is that bridge address, otherwise it is the signer')
+        n_ok = 0
+        for with_bridge in (False, True):
+            me, wa, signer, info = A.mk_ics20_self(ex, with_bridge)
+            w0 = initial_world()
+            pc = []
+            if with_bridge:
+                st_tmp = None
+            w0r, res = A.run_action(run, ex, W, 'Ics20Withdrawal', w0=w0, me=me, allow_havoc=(r'^Arguments::|fmt::', r'to_vec$'))
+            for i, (p, kind, r, me1) in enumerate(res):
+                lab = f'[{"bridge" if with_bridge else "plain"}, path {i}]'
+                if kind == 'panic':
+                    run.prove(f'no panic {lab}', p.pc, z3.BoolVal(False), detail=p.info); continue
+                run.sample({'bridge': with_bridge, 'path': i, 'result': kind, 'writes': [e[1] for e in p.log if e[0] == 'write']})
+                if kind != 'Ok':
+                    continue
+                n_ok += 1
+                act = B.fld(ex, p, me1, 'action', 'Ics20Withdrawal')
+                amt = B.fld(ex, p, act, 'amount', 'u128'); denom = W.asset(p, B.fld(ex, p, act, 'denom', 'Denom'))
+                inv = []
+                if with_bridge:
+                    baddr, memo = me1.fields[(None, ex.adts.lookup('CheckedIcs20Withdrawal')['fields'].index('bridge_address_and_rollup_withdrawal'))].fields[('Some', 0)]
+                    inv.append(W.addr(p, baddr) == wa)
+                else:
+                    inv.append(wa == signer)
+                k = z3.Concat(wa, denom)
+                if pid == 'C18':
+                    chan_writes = [e for e in p.log if e[0] == 'write' and e[1] == 'escrow']
+                    esc_ok = z3.BoolVal(True)
+                    if chan_writes:
+                        ek = chan_writes[0][2]
+                        esc_ok = z3.And(z3.BoolVal(len(chan_writes) == 1), z3.Extract(255, 0, ek) == denom, p.world['escrow'] == z3.Store(w0['escrow'], ek, z3.Select(w0['escrow'], ek) + amt),
+                                        z3.BVAddNoOverflow(z3.Select(w0['escrow'], ek), amt, False))
+                    else:
+                        esc_ok = p.world['escrow'] == w0['escrow']
+                    run.prove(f'Ok => the withdrawal address is debited exactly the amount; a sequencer-origin asset is escrowed on the source channel by exactly that amount (no wrap), otherwise escrow is untouched {lab}',
+                              p.pc + inv, z3.And(p.world['balance'] == z3.Store(w0['balance'], k, z3.Select(w0['balance'], k) - amt), z3.UGE(z3.Select(w0['balance'], k), amt), esc_ok,
+                                                 z3.BoolVal(any(e[0] == 'send_packet_execute' for e in p.log))))
+                if pid == 'C04' and with_bridge:
+                    key = z3.Concat(wa, W.ident(p, B.fld(ex, p, memo, 'rollup_withdrawal_event_id', 'String')))
+                    run.prove(f'Ok => the (bridge, event id) pair was unused before and is recorded with the rollup block number afterwards {lab}', p.pc + inv,
+                              z3.And(z3.Not(z3.Select(w0['withdrawal_event?'], key)), z3.Select(p.world['withdrawal_event?'], key),
+                                     z3.Select(p.world['withdrawal_event'], key) == B.fld(ex, p, memo, 'rollup_block_number', 'u64')))
+                if pid == 'C02':
+                    for label, claim in A.c02_claims(w0, p.world, signer):
+                        run.prove(f'{label} {lab}', p.pc + inv, claim)
+                    run.prove(f'Ics20Withdrawal writes only balance / escrow / withdrawal_event {lab}', p.pc, A.unchanged(w0, p.world, except_=('balance', 'escrow', 'withdrawal_event')))
+        if not n_ok:
+            raise Inconclusive('vacuity: no successful withdrawal')
+        run.require_reached(*run.cur.reach)
+    return ob
+
+
+obligation('C18', 'C18-1b Ics20Withdrawal::execute: exact debit and escrow increase')(ics20_obligation('C18'))
